@@ -538,7 +538,19 @@ func (fr *Frame) builtin(ins *ssa.Call, b *ssa.Builtin, c *ssa.CallCommon, reach
 			setRes(scalar(tInt, vc.fresh("cap", "Int")))
 		}
 	case "append":
+		// the builtin is an anchor for ghost statements (`set g = e @ before 2 append`): loops that only append have no other call
+		ord := fr.sourceOrdinal(c, pos)
+		fr.ghostArgs = []Val{fr.val(c.Args[0], st), fr.val(c.Args[1], st)}
+		fr.ghostStmts("append", ord, "before", st, reach)
+		fr.ghostArgs = nil
 		fr.appendOp(ins, c, reach, st, pos)
+		if ins != nil {
+			if rv, ok := fr.env[ins]; ok {
+				fr.ghostResults = []Val{rv}
+			}
+		}
+		fr.ghostStmts("append", ord, "after", st, reach)
+		fr.ghostResults = nil
 	case "copy":
 		fr.copyOp(ins, c, reach, st)
 	case "delete":
@@ -611,6 +623,11 @@ func (fr *Frame) appendOp(ins *ssa.Call, c *ssa.CallCommon, reach *Term, st *Sta
 		// reallocated array: prefix copied
 		vc.cmds = append(vc.cmds, fmt.Sprintf("(assert (forall ((p Int)) (! (=> (and (<= 0 p) (< p %s)) (= (select %s p) (select (select %s %s) (+ %s p)))) :pattern ((select %s p)))))",
 			s.sLen(), narr, M, s.sBase(), s.sOff(), narr))
+		// the same fact triggered from the old array (absolute positions): a witness position in the old backing array has its
+		// counterpart in the reallocated one
+		oldArr := vc.define("append.old", inner, Sel(M, s.sBase()))
+		vc.cmds = append(vc.cmds, fmt.Sprintf("(assert (forall ((q Int)) (! (=> (and (<= %s q) (< q (+ %s %s))) (= (select %s (- q %s)) (select %s q))) :pattern ((select %s q)))))",
+			s.sOff(), s.sOff(), s.sLen(), narr, s.sOff(), oldArr, oldArr))
 		if isOne && one == 1 {
 			x := Sel2(M, t.sBase(), t.sOff())
 			mIn = Sto2(M, s.sBase(), IAdd(s.sOff(), s.sLen()), x)
@@ -1150,6 +1167,9 @@ func callSimpleName(c *ssa.CallCommon) string {
 	}
 	if f := c.StaticCallee(); f != nil {
 		return f.Name()
+	}
+	if b, ok := c.Value.(*ssa.Builtin); ok {
+		return b.Name()
 	}
 	return ""
 }
